@@ -34,6 +34,7 @@ EXPLANATION = (
     "call. Not decided: equality of values after a real round trip.")
 EXPLANATION += (' R-C20-5: the identifier dataset and the value dataset of a variable are parallel arrays and must come from the same table in the same order class. R-C20-6: a value cached on the importer by a method with arguments must be keyed by them (zero instances expected; a built-in positive example is evaluated on every run).')
 EXPLANATION += (" R-C20-7: the index the importer attaches to a variable's values follows that variable's own MYGEOMETRYIDS order (identifier frame on the left of an order-preserving merge); the exporter applies no unit-dependent tolerance (np.allclose/isclose) when it decides about the mesh.")
+EXPLANATION += (' R-C20-8: an exporter attribute that a method sets under a data-dependent condition and another method reads (the dimension of the geometry) is assigned on every path of the setting method (CFG must-pass), so no value of an earlier add_* call survives.')
 ASSUMPTIONS = [
     "h5py semantics: group[name] addresses a child, create_group/create_dataset create it, attrs is a key/value store",
     "string formatting with %s inserts exactly one path component",
@@ -424,6 +425,7 @@ def run(ctx):
     ctx.attempt(lambda c: _check_parallel_order(c, prog, exp_ci))
     ctx.attempt(lambda c: _check_cache_keys(c, prog, imp_ci))
     ctx.attempt(lambda c: _check_value_order(c, prog, exp_ci, imp_ci))
+    ctx.attempt(lambda c: _check_per_call_state(c, prog, exp_ci))
 
     # ---------------------------------------------------------------- R-C20-4 read only
     ctx.rule("R-C20-4", floor=2, what="importer opens the file read-only and reaches no write call")
@@ -581,6 +583,52 @@ def _check_value_order(ctx, prog, exp_ci, imp_ci):
     holder = prog.lookup_method(exp_ci, "_create_points_datasets")
     for st in dims:
         ctx.holds(holder or exp_ci.key, st, "dimension decided by the exact test %s" % norm_text(st.test))
+
+
+def _check_per_call_state(ctx, prog, exp_ci):
+    """R-C20-8: an exporter attribute that a method sets under a data-dependent condition (the dimension of the geometry being
+    written) describes the current call, not the exporter: the same method must initialise it unconditionally before, so that
+    every path through the method assigns it.  Otherwise the value left by an earlier add_* call decides (a flat mesh added
+    after a solid one is typed as 3-D)."""
+    from ..cfg import CFG
+    ctx.rule("R-C20-8", floor=1, what="attributes set under a data-dependent condition are (re)initialised on every path of the same method")
+    n = 0
+    for name, fs in exp_ci.methods.items():
+        f = fs[-1]
+        if name == "__init__":
+            continue
+        cond = {}
+        for st in walk_function(f.node):
+            if isinstance(st, ast.Assign) and any(is_self_attr(t) for t in st.targets):
+                attr = next(t.attr for t in st.targets if is_self_attr(t))
+                par = st._parent
+                inside_if = False
+                while par is not None and par is not f.node:
+                    if isinstance(par, (ast.If, ast.For, ast.While)):
+                        inside_if = True
+                    par = getattr(par, "_parent", None)
+                cond.setdefault(attr, []).append((st, inside_if))
+        for attr, sts in cond.items():
+            if not any(c for _, c in sts):
+                continue
+            # is the attribute read by another method (i.e. does the stale value matter)?
+            readers = [g for gname, gs in exp_ci.methods.items() if gname != name for g in gs[-1:]
+                       if any(is_self_attr(x, attr) and isinstance(x.ctx, ast.Load) for x in ast.walk(g.node))]
+            if not readers:
+                continue
+            n += 1
+            cfg = CFG(f.node)
+            nodes = {cfg.node(st) for st, _ in sts}
+            nodes.discard(None)
+            if cfg.must_pass(cfg.exit, nodes):
+                ctx.holds(f, sts[0][0], "%s: self.%s is assigned on every path (read by %s)" % (name, attr, ", ".join(g.name for g in readers)))
+            else:
+                st = next(s_ for s_, c in sts if c)
+                ctx.violated(f, st, "%s sets self.%s only under a condition on the data of this call and does not initialise it "
+                             "before; %s then works with the value an earlier add_* call left behind" %
+                             (name, attr, ", ".join(g.name for g in readers)), text="conditional state " + attr)
+    if n == 0:
+        ctx.holds(exp_ci.key, None, "no exporter attribute is set only conditionally")
 
 
 def _check_cache_keys(ctx, prog, imp_ci):
@@ -1133,6 +1181,15 @@ def _is_range_check(fi):
 
 def variants():
     out = []
+
+    def dimension_sticky(tree):
+        f = find_func(tree, "VMAPExport._create_points_datasets")
+        for i, st in enumerate(f.body):
+            if isinstance(st, ast.Assign) and is_self_attr(st.targets[0], "_dimension") and const_value(st.value) == 2:
+                del f.body[i]
+                return True
+        return False
+    out.append(witness("dimension is only ever raised, never reset per geometry", EXP_PATH, dimension_sticky, "R-C20-8"))
 
     def merge_swapped(tree):
         f = find_func(tree, "VMAPImport._var_element_nodal_index")
